@@ -58,9 +58,12 @@ func c03(c *Ctx) {
 	r.Rule("R03.P", "padding before IGE: 0 <= pad <= 15 and (len+pad) % 16 == 0 for every residue", 1)
 	r.Rule("R03.E", "isPacketEncrypted tests the 8-byte position the unencrypted writer fills with zero", 1)
 	tr := an.NewTracer()
+	r.Rule("R03.A", "a packet a conformant server sealed is opened: the success exit of the two readers and of transport.ReadMsg is reachable for every msg_id with low bits 01 / 11, whatever its sign (ids of 2038 and later are negative as int64)", 3)
+	c03Acceptance(c)
 	r.Rule("R03.K", "key schedule: the aes_key / aes_iv expressions extracted from generateAESIGE (both directions) are the MTProto 1.0 formulas — every window of auth_key, every SHA-1 input order, every digest slice", 4)
 	if c.verifySummaries("R03.K") {
 		c.keySchedule("R03.K")
+		c.cipherKeying("R03.K", false)
 	}
 
 	// ---- R03.I writer ---------------------------------------------------------------------------
@@ -469,4 +472,71 @@ func shaWindow(v ssa.Value, tr *an.Tracer, f *ssa.Function) string {
 		return sprintf("the digest input ends at %d for a declared length of 1000 (must be 32+len)", h)
 	}
 	return "ok: SHA1(decrypted[0:32+len])[4:20]"
+}
+
+// c03Acceptance: R03.A.
+func c03Acceptance(c *Ctx) {
+	r := c.R
+	tr := an.NewTracer()
+	for _, t := range []struct{ pkg, recv, name, key string }{
+		{load.MsgPkg, "", "DeserializeEncrypted", "accept:encrypted"},
+		{load.MsgPkg, "", "DeserializeUnencrypted", "accept:plain"},
+		{load.TransPkg, "*transport", "ReadMsg", "accept:transport"},
+	} {
+		f := c.fn("R03.A", t.pkg, t.recv, t.name)
+		if f == nil {
+			continue
+		}
+		var succ []ssa.Instruction
+		for _, p := range successPaths(f, 0) {
+			succ = append(succ, p.Ret)
+		}
+		succ = dedupInstr(succ)
+		if len(succ) == 0 {
+			r.Undecide("R03.A", t.key, c.pos(f.Pos()), "no success exit")
+			continue
+		}
+		isID := func(v ssa.Value) bool {
+			if call, ok := v.(*ssa.Call); ok {
+				n := an.CalleeName(call.Common())
+				if strings.HasSuffix(n, ".PopLong") {
+					return t.name != "DeserializeEncrypted" || strings.Contains(c.destLabel(tr, call), "messages.Encrypted.MsgID")
+				}
+				if strings.HasSuffix(n, ").GetMsgID") {
+					return true
+				}
+			}
+			if ld, ok := v.(*ssa.UnOp); ok {
+				o := tr.OriginString(ld)
+				if t.name == "DeserializeEncrypted" {
+					return strings.Contains(o, "PopLong") && strings.Contains(an.NewTracerNoAlloc().OriginString(ld), "messages.Encrypted.MsgID")
+				}
+				return strings.Contains(o, "PopLong")
+			}
+			return false
+		}
+		okAll, used := true, false
+		for _, ret := range succ {
+			_, all, u := residueReachSigned(f, isID, ret)
+			used = used || u
+			if !(all[1] && all[3]) {
+				okAll = false
+			}
+		}
+		if len(succ) > 1 {
+			// several success exits: each id must reach at least one of them — approximate by the union
+			okAll = true
+			for _, cls := range []int64{1, 3} {
+				ok := false
+				for _, ret := range succ {
+					_, all, _ := residueReachSigned(f, isID, ret)
+					if all[cls] {
+						ok = true
+					}
+				}
+				okAll = okAll && ok
+			}
+		}
+		r.Check(used && okAll, "R03.A", t.key, c.pos(f.Pos()), "the parity test of the msg_id accepts every id with low bits 01 and 11 — positive, negative and with only the top bit set (a remainder taken with % is negative for negative ids)")
+	}
 }
